@@ -5,3 +5,95 @@ LEVEL_TEXT = ("keyword.find_all is proved, for all data and keywords and all ite
 LEVEL_NOTE = "bytes.find is an uninterpreted function shared by code and specification (validated at run time); isalnum / slices are opaque symbols"
 DESIGN_REF = "DESIGN.md section 6 (C17)"
 FUNCTIONS = ["multidecoder.keyword.find_all"]
+BOUNDED_NOTE = "bounded stand-in: find_all / find_keywords / registry-built searchers against an executable reference, exhaustively over a small alphabet"
+
+
+def ref_find_all(keyword: bytes, data: bytes):
+    """Reference from the property text: leftmost non-overlapping occurrences, kept when delimited."""
+    out, n, pos = [], len(keyword), 0
+    if not keyword:
+        return out
+
+    def alnum(b):
+        return (48 <= b <= 57) or (65 <= b <= 90) or (97 <= b <= 122)
+
+    while True:
+        p = data.find(keyword, pos)
+        if p < 0:
+            return out
+        if (p == 0 or not alnum(data[p - 1])) and (p + n == len(data) or not alnum(data[p + n])):
+            out.append(p)
+        pos = p + n
+
+
+def ref_mixed(keyword: bytes, raw: bytes) -> bool:
+    if raw.isupper() or raw.islower():
+        return False
+    return any((chr(v).isupper() and not chr(d).isupper()) or (chr(v).islower() and not chr(d).islower()) for v, d in zip(raw, keyword))
+
+
+def bounded_keyword(tier, seed):
+    import itertools
+    import os
+    import tempfile
+
+    from multidecoder import keyword as K
+    from multidecoder.registry import get_keywords
+
+    alphabet = [b"a", b"A", b"-", b"1", b"\xe9", b" "]
+    failures, n, distinct = [], 0, set()
+    maxd = 5 if tier == "quick" else 6
+    kws = [b"".join(t) for L in (1, 2, 3) for t in itertools.product([b"a", b"A", b"-", b"1", b" "], repeat=L)]
+    datas = [b"".join(t) for L in range(0, maxd + 1) for t in itertools.product(alphabet, repeat=L)]
+    for kw in kws:
+        for data in datas[:: (1 if tier != "quick" else 3)]:
+            n += 1
+            got = K.find_all(kw.lower(), data.lower())
+            want = ref_find_all(kw.lower(), data.lower())
+            if got != want and len(failures) < 3:
+                failures.append({"id": f"find_all({kw!r},{data!r})", "function": "multidecoder.keyword.find_all", "obligation": "post", "case": {"kw": kw.hex(), "data": data.hex()},
+                                 "observed": f"find_all({kw.lower()!r}, {data.lower()!r}) = {got}, reference {want}"})
+            if got:
+                distinct.add((kw, data))
+        # nodes
+    for kw in kws[::7]:
+        for data in datas[::11]:
+            n += 1
+            nodes = K.find_keywords("lbl", [kw], data)
+            want = [("lbl", kw, "MixedCase" if ref_mixed(kw, data[p : p + len(kw)]) else "", p, p + len(kw)) for p in ref_find_all(kw.lower(), data.lower())]
+            got = [(x.type, x.value, x.obfuscation, x.start, x.end) for x in nodes]
+            if got != want and len(failures) < 5:
+                failures.append({"id": f"find_keywords({kw!r},{data!r})", "function": "multidecoder.keyword.find_keywords", "obligation": "post", "case": {"kw": kw.hex(), "data": data.hex(), "nodes": True},
+                                 "observed": f"find_keywords = {got}, reference {want}"})
+    # registry-built searchers report the keyword AS LISTED (C17 / C18)
+    with tempfile.TemporaryDirectory() as d:
+        listed = [b" -enc", b"a-a", b"Tab\there ", b"x"]
+        with open(os.path.join(d, "mylist"), "wb") as f:
+            f.write(b"\n".join(listed) + b"\n\n")
+        reg = get_keywords(d)
+        for data in [b"x -enc y", b"; -EnC;", b"ba-a-a a-a", b"tab\there  z", b"-enc"]:
+            n += 1
+            got = sorted((x.type, x.value, x.start, x.end) for s in reg for x in s(data))
+            want = sorted(("mylist", kw, p, p + len(kw)) for kw in listed for p in ref_find_all(kw.lower(), data.lower()))
+            if got != want and len(failures) < 7:
+                failures.append({"id": f"registry keyword searcher on {data!r}", "function": "multidecoder.registry.get_keywords", "obligation": "post", "case": {"registry_data": data.hex()},
+                                 "observed": f"hits {got}, reference {want}"})
+    return {"evaluations": n, "distinct_nontrivial": len(distinct), "scope": f"keywords up to 3 bytes over {{a,A,-,1,space}} x data up to {maxd} bytes over {{a,A,-,1,0xE9,space}}; a registry built from a directory with keywords that have leading/trailing blanks",
+            "failures": failures, "samples": [{"kw": "612d61", "data": "62612d612d61"}]}
+
+
+BOUNDED = [bounded_keyword]
+
+
+def replay(case):
+    r = bounded_keyword("quick", 0)
+    for f in r["failures"]:
+        if f["case"] == case:
+            return False, f["observed"]
+    from multidecoder import keyword as K
+
+    if "kw" in case:
+        kw, data = bytes.fromhex(case["kw"]), bytes.fromhex(case["data"])
+        got, want = K.find_all(kw.lower(), data.lower()), ref_find_all(kw.lower(), data.lower())
+        return got == want, f"find_all = {got}, reference {want}"
+    return True, "not reproduced"
